@@ -31,8 +31,7 @@ ASSUMPTIONS = [
     "(default expressions: a task call, getitem of a task call, a list with a task call, call + 1), lazy operators (+, reversed +, "
     "[0], [1]), lists, cond, catch (failing and non-failing, and nested catches whose inner recover task raises), apply_tags, prov=False calls, structurally equal sub-expressions as "
     "distinct objects (duplicates) including duplicated scheduler expressions",
-    "a failing call occurs only as the protected expression of a catch, and the failing call of a nested catch is not shared with "
-    "another catch; scheduler expressions are not nested inside cond branches "
+    "a failing call occurs only as the protected expression of a catch (possibly of two different catches); scheduler expressions are not nested inside cond branches "
     "or catch bodies (their relative evaluation order would be timing dependent); every call carries a tag literal that makes "
     "call nodes of different expressions distinct",
 ]
@@ -116,10 +115,9 @@ class Gen:
             else:
                 body = self.int_expr(depth - 1, False)
             if body[0] == "call" and body[1] == "boom" and rng.random() < 0.35:
-                # nested: the inner recover task raises, the outer catch handles that.  The failing call gets an argument of
-                # its own: a failing call shared by two different catches is an expression-level duplicate whose call_hash
-                # is never copied (the copy callback only runs on success) - observed, reported, kept out of the generator
-                body = ("catch", self.call("boom", True, [("lit", 50 + len(self.tags))]), "rb")
+                # nested: the inner recover task raises, the outer catch handles that (the failing call may also be protected
+                # by another catch elsewhere: an expression-level duplicate of a failing call)
+                body = ("catch", body, "rb")
             e = ("catch", body)
         else:
             e = ("tags", self.int_expr(depth - 1, False))
@@ -191,6 +189,16 @@ def _fixed_corpus():
     # nested catches: the inner recover raises, the outer catch handles it and its recover(error) gets a new call node
     w_nc = g.call("t", True, [("catch", ("catch", g.call("boom", True, [("lit", 30)]), "rb")),
                               ("catch", ("catch", g.call("t", True, [("lit", 31)]), "rb"))])
+    # the same failing call protected by two different catches: the second occurrence is an expression-level duplicate
+    bm = g.call("boom", True, [("lit", 40)])
+    w_df = g.call("t", True, [("catch", bm), ("catch", ("catch", bm, "rb"))])
+    progs = _corpus_head(g, w_dup, w_cc, w_de, w_nc, w_def, w_def2, w_catch, w_np)
+    while not (len(progs) % 3 == 0 and len(progs) % 4 != 0):
+        progs.append(("cont", [("lit", 1)]))            # w_df runs as a single plain execution (no warm-up / replay)
+    return progs + [("cont", [w_df])]
+
+
+def _corpus_head(g, w_dup, w_cc, w_de, w_nc, w_def, w_def2, w_catch, w_np):
     return [("cont", [w_dup]), ("cont", [w_cc]), ("cont", [w_de]), ("cont", [w_nc]), ("cont", [w_def]), ("cont", [w_def2, w_catch]), ("cont", [w_np]),
             ("cont", [("lit", 1)])]
 
@@ -293,6 +301,7 @@ def spec_rows(e, out, seen):
                 out.setdefault((tag, ("k", KW[n])), (producers(a), kind_of(a, seen)))
             for n, d in defaults_of(e):
                 out.setdefault((tag, ("k", KW[n])), (producers(d), "default"))
+        seen.add("call:" + repr(e))
     elif k == "op":
         for x in e[2]:
             spec_rows(x, out, seen)
@@ -300,10 +309,13 @@ def spec_rows(e, out, seen):
         spec_rows(e[1], out, seen)
         spec_rows(e[2] if T.value_of(e[1]) else e[3], out, seen)
     elif k == "catch":
+        # the protected call was already evaluated elsewhere in the scope (under another catch): this occurrence is an
+        # expression-level duplicate of a FAILING call
+        dup_fail = e[1][0] == "call" and ("call:" + repr(e[1])) in seen
         spec_rows(e[1], out, seen)
         failed, rec = catch_info(e)
         if failed:
-            out.setdefault((rec, ("p", 0)), (producers(e[1]), "recover"))
+            out.setdefault((rec, ("p", 0)), (producers(e[1]), "duplicate-failing-call" if dup_fail else "recover"))
     elif k == "tags":
         spec_rows(e[1], out, seen)
     if k in ("cond", "catch", "tags"):
@@ -534,6 +546,7 @@ def run_program(ctx, prog, replay_run=False, warm=False, rever=False):
         ups = got[key][0]
         if ups != prods:
             sig = {"default": "C21-upstream-missing-default-expr", "cached-catch": "C21-upstream-missing-cached-catch",
+                   "duplicate-failing-call": "C21-upstream-missing-duplicate-failing-call",
                    "deserialized-scheduler-expr": "C21-upstream-missing-deserialized-scheduler-expr",
                    "duplicate-scheduler-expr": "C21-upstream-missing-duplicate-scheduler-expr"}.get(kind, "C21-upstream-mismatch")
             if ups - prods:
@@ -589,8 +602,13 @@ def run(ctx):
         if m != got:
             diff_m = {k: v for k, v in m.items() if got.get(k) != v}
             diff_i = {k: v for k, v in got.items() if m.get(k) != v}
+            dupfail = {k for k, (_, kind) in rows_of(p).items() if kind == "duplicate-failing-call"}
+            sig = "correspondence"
+            if dupfail and set(diff_i) <= dupfail and all(v == [] for v in diff_i.values()):
+                # the model (like the specification) links the recover argument of a duplicated failing call; the code does not
+                sig = "C21-upstream-missing-duplicate-failing-call"
             ctx.mismatch("Argument/ArgumentResult rows differ from the model", case={"program": p, "request": to_model(p, None)[:3000]},
-                         model=sorted(diff_m.items(), key=repr)[:6], impl=sorted(diff_i.items(), key=repr)[:6])
+                         model=sorted(diff_m.items(), key=repr)[:6], impl=sorted(diff_i.items(), key=repr)[:6], signature=sig)
 
 
 def replay(ctx, case):
